@@ -43,6 +43,7 @@ type Contract struct {
 	Requires []*Clause
 	Ensures  []*Clause
 	OnPanic  []*Clause // obligations on panicking exits
+	Callers  []*Clause // the only functions allowed to call this one (Src is the comma-separated list)
 	Commutes []*Clause // two calls (arguments X and X2) commute on the ghost world when the clause holds
 	Mints    []*Clause // for every bank mint on a path and every denom d with non-zero amount
 	Burns    []*Clause // likewise for burns
@@ -96,7 +97,19 @@ type SpecSet struct {
 	Aggs      []*AggSpec
 	RowInvs   []*RowInv
 	Lemmas    []*Lemma
+	Prefixes  []*PrefixFamily
 	Files     []string
+}
+
+// PrefixFamily declares what a key-prefix builder selects in a table: the rows whose key
+// components at Fixed equal the builder's arguments, visited by a prefix iterator in the
+// lexicographic order of the components at Order (ascending; reversed by the reverse iterator).
+// (That the byte prefix selects exactly these rows is the subject of the C16 key lemmas.)
+type PrefixFamily struct {
+	Builder string // BytesV tag, e.g. "types.PriceKeyPrefixAssetAndSource"
+	Table   string
+	Fixed   []int
+	Order   []int
 }
 
 // Lemma is a pure specification-level fact (no code): universally quantified over its
@@ -297,6 +310,18 @@ func (ss *SpecSet) directive(cur **Contract, pkgPath, file string, ln int, body 
 		if *cur != nil {
 			(*cur).MigrationOnly = true
 		}
+	case "callers":
+		if *cur == nil {
+			return fail(fmt.Errorf("callers outside a func block"))
+		}
+		c := &Clause{Src: rest, File: file, Line: ln, Expr: &Spec{}}
+		if m := nameRe.FindStringSubmatch(rest); m != nil {
+			c.Name, c.Src = m[1], m[2]
+			if i := strings.Index(c.Name, "/"); i > 0 {
+				c.Tags = strings.Split(c.Name[:i], ",")
+			}
+		}
+		(*cur).Callers = append((*cur).Callers, c)
 	case "requires", "ensures", "onpanic", "mints", "burns", "commutes":
 		if *cur == nil {
 			return fail(fmt.Errorf("%s outside a func block", word))
@@ -356,6 +381,30 @@ func (ss *SpecSet) directive(cur **Contract, pkgPath, file string, ln int, body 
 			return fail(err)
 		}
 		ss.RowInvs = append(ss.RowInvs, &RowInv{Name: f[0], Table: f[2], RowType: f[4], Expr: sp, PkgPath: pkgPath, File: file, Line: ln})
+	case "prefixfamily":
+		// prefixfamily <builder-tag> table <id> fixes <i,j> order <k,l>
+		f := strings.Fields(rest)
+		if len(f) != 7 || f[1] != "table" || f[3] != "fixes" || f[5] != "order" {
+			return fail(fmt.Errorf("prefixfamily <builder> table <id> fixes <i,j|-> order <k,l>"))
+		}
+		pf := &PrefixFamily{Builder: f[0], Table: f[2]}
+		for _, x := range strings.Split(f[4], ",") {
+			if x != "-" && x != "" {
+				n, err := strconv.Atoi(x)
+				if err != nil {
+					return fail(err)
+				}
+				pf.Fixed = append(pf.Fixed, n)
+			}
+		}
+		for _, x := range strings.Split(f[6], ",") {
+			n, err := strconv.Atoi(x)
+			if err != nil {
+				return fail(err)
+			}
+			pf.Order = append(pf.Order, n)
+		}
+		ss.Prefixes = append(ss.Prefixes, pf)
 	case "lemma":
 		// lemma <name> (x Int, y Str): <expr>
 		i := strings.Index(rest, "(")
@@ -1131,7 +1180,7 @@ func (ev *evalEnv) call(x *ast.CallExpr) tval {
 			for _, a := range x.Args[2:] {
 				ks = append(ks, ex.term(ev.eval(a).V))
 			}
-			return tval{smt.BoolC(ex.tableGet(c.W, id, ks) != nil), boolT}
+			return tval{ex.hasTerm(c.W, id, ks), boolT}
 		}
 		if d, ok := ev.specs.Defines[id.Name]; ok {
 			if len(d.Params) != len(x.Args) {
